@@ -368,9 +368,12 @@ def handlePendingTasks (s : Sys) (jo : JobObj) (rj : Job) (tasks : List Task) : 
         let (s2, ok) := deleteTasks s1 needDelete false
         (s2, if ok then some newRj else none)
 
-/-- `handleKillJob` -/
-def handleKillJob (s : Sys) (rj : Job) (tasks : List Task) : Sys × Option Job :=
-  if !shouldKillJob s.clock rj then (s, some rj)
+/-- `handleKillJob`; a kill timestamp that is still in the future arms a timer for it -/
+def handleKillJob (s : Sys) (jo : JobObj) (rj : Job) (tasks : List Task) : Sys × Option Job :=
+  if !shouldKillJob s.clock rj then
+    match rj.killTimestamp with
+    | some ts => (enqueueAfter s (jobKey jo) ts, some rj)
+    | none => (s, some rj)
   else
     let needDelete := tasks.filter (fun t => !isTaskFinished t && t.deletionTimestamp.isNone)
     if needDelete.isEmpty then (s, some rj)
@@ -412,7 +415,7 @@ def syncJobTasks (s : Sys) (jo : JobObj) (rj : Job) : Sys × Option Job :=
     match handlePendingTasks s2 jo rj2 tasks1 with
     | (s3, none) => (s3, none)
     | (s3, some rj3) =>
-      match handleKillJob s3 rj3 tasks1 with
+      match handleKillJob s3 jo rj3 tasks1 with
       | (s4, none) => (s4, none)
       | (s4, some rj4) =>
         match handleForceDelete s4 jo rj4 tasks1 with
@@ -428,15 +431,23 @@ def handleTTL (s : Sys) (jo : JobObj) (rj : Job) : Sys × Bool :=
   else match rj.status.condition.finished with
     | none => (s, true)
     | some fin =>
-      if fin.finishTimestamp.getD zeroTime + ttl > s.clock then (s, true)
+      -- not yet expired: come back when it is (the TTL may be the config default)
+      if fin.finishTimestamp.getD zeroTime + ttl > s.clock then
+        (enqueueAfter s (jobKey jo) (fin.finishTimestamp.getD zeroTime + ttl), true)
       else apiDeleteJob s jo
+
+/-- the tasks `handleFinishFinalizer` deletes and waits for: the tasks of the status that can
+still be found (cache, absence confirmed by a live GET), then `adoptUnrecordedTasks`: the tasks
+that were created but not recorded (pod cache; labelled with and controlled by this Job) -/
+def finalizerTasks (s : Sys) (jo : JobObj) (rj : Job) : List Task :=
+  adoptUnrecordedTasks s { jo with job := rj } (tasksForRefsConfirmed s rj.status.tasks)
 
 /-- `handleFinishFinalizer`; result: the Job and finalizer flag to write, or `none` on error -/
 def handleFinalizer (s : Sys) (jo : JobObj) (rj : Job) (finalizer : Bool) : Sys × Option (Job × Bool) :=
   if rj.deletionTimestamp.isNone then (s, some (rj, finalizer))
   else if !finalizer then (s, some (rj, finalizer))
   else
-    let tasks := tasksForRefsConfirmed s rj.status.tasks
+    let tasks := finalizerTasks s jo rj
     if !tasks.isEmpty then
       let rj1 := tasks.foldl (fun acc t => updateTaskRefDeletedStatusIfNotSet acc t.name
         { state := .terminated, result := .killed, reason := "JobDeleted" }) rj
@@ -449,11 +460,11 @@ def handleFinalizer (s : Sys) (jo : JobObj) (rj : Job) (finalizer : Bool) : Sys 
 
 /-- the Job whose status the finalizer's last `updateTaskRefStatus` is computed from (for
 `statusHasNullTime`); `none` when the finalizer leaves the status as it got it -/
-def finalizerStatusInput (s : Sys) (rj : Job) (finalizer : Bool) : Option Job :=
+def finalizerStatusInput (s : Sys) (jo : JobObj) (rj : Job) (finalizer : Bool) : Option Job :=
   if rj.deletionTimestamp.isNone then none
   else if !finalizer then none
   else
-    let tasks := tasksForRefsConfirmed s rj.status.tasks
+    let tasks := finalizerTasks s jo rj
     if !tasks.isEmpty then
       let rj1 := tasks.foldl (fun acc t => updateTaskRefDeletedStatusIfNotSet acc t.name
         { state := .terminated, result := .killed, reason := "JobDeleted" }) rj
@@ -474,7 +485,7 @@ def sync (s : Sys) (jo : JobObj) : Sys × Job × Bool × Bool × Bool :=
     match handleTTL s2 jo rj2 with
     | (s3, false) => (s3, rj2, jo.finalizer, false, null2)
     | (s3, true) =>
-      let null3 := match finalizerStatusInput s3 rj2 jo.finalizer with
+      let null3 := match finalizerStatusInput s3 jo rj2 jo.finalizer with
         | some inp => statusHasNullTime s3 inp
         | none => null2
       match handleFinalizer s3 jo rj2 jo.finalizer with
